@@ -365,6 +365,25 @@ func runSvcScenario(seed uint64, idx int, dbpath string) (*svcScen, error) {
 		return nil, err
 	}
 	defer db.Close()
+	// policy / configuration variants (the directed scenarios keep the permissive defaults)
+	if idx >= len(svcDirectedScenarios) {
+		switch r.Intn(14) {
+		case 0:
+			env.SwapsAllowed = false
+		case 1:
+			env.PeerAllowed = false
+		case 2:
+			env.PeerSuspicious = true
+		case 3:
+			env.LiquidEnabled = false
+		case 4:
+			env.BitcoinEnabled = false
+		case 5:
+			env.MinAmountMsat = 2_000_000_000
+		case 6:
+			env.BtcNetwork = "signet"
+		}
+	}
 	node, err := newNode(env, db)
 	if err != nil {
 		return nil, err
@@ -485,6 +504,20 @@ func (sc *svcScen) opNamed(spec string) {
 		}
 		if strings.HasSuffix(name, "_bad") {
 			version = 5 // refused by CheckRequestWrapperAction: swap ends cancelled
+		}
+		if idxRandom := sc.r.Intn(12); !strings.Contains(name, "_") {
+			switch idxRandom {
+			case 0:
+				version = uint8(sc.r.Intn(9))
+			case 1:
+				if chain == "lbtc" {
+					asset = strings.Repeat("ab", 33) // some other asset
+				} else {
+					network = "mainnet"
+				}
+			case 2:
+				amount = PickU(sc.r, []uint64{1, 99999, 100000, 100001, 1999999, 2000000})
+			}
 		}
 		if strings.HasSuffix(name, "_wrap") {
 			amount = 18446744073709552 + uint64(r.Range(0, 3)) // amount*1000 mod 2^64 is tiny
